@@ -32,8 +32,10 @@ Fillers == {
     "Output", "Append", "Rem", "1", "0", "-1", "2.5", "32768", "99999999999", "&HFF", "&H", "1E5", "1.",
     ".5", "1#", "\"s\"", "\"\"", "\"s", "(1)", "((1))", "(", ")", "1 +", "+ 1", "N% + 1", "N% = 1",
     "\"a\" + \"b\"", "S$ + 1", "-N%", "NOT N%", "1, 2", "1; 2", "1 / 0", "N% MOD 0", "1 AND S$",
-    "S$ < \"b\"", "1 < S$", "#1", "8", "80", "25", "F$", "A", "Z", "X", "Qq", "Pq%", "\"T.TXT\"", "\"##\"",
-    "", " ", ":", "'", ",", ";", "=", "1 TO 2", "-", "- -1", "(N%", "N%)" }
+    "S$ < \"b\"", "1 < S$", "#1", "7 MOD .4", "7 MOD 0", ".4", "1 / .0000001", "2 ^ 2", "1 \\ 2", "N% AND",
+    "Arr(1 TO 2)", "1 TO", "(1 TO 2)", "N% * 99999", "32767 + N%", "8", "80", "25", "F$", "A", "Z", "X",
+    "Qq", "Pq%", "\"T.TXT\"", "\"##\"", "", " ", ":", "'", ",", ";", "=", "1 TO 2", "-", "- -1", "(N%",
+    "N%)" }
 
 Core == {
     "N%", "S$", "Arr(1)", "Arr", "Rec.X", "RecArr(1).X", "Rec", "Undef", "Undef(1)", "MyConst", "MySub",
@@ -43,18 +45,21 @@ Core == {
     "Integer", "8", "F$", "\"T.TXT\"", "Varptr(N%)", "80", "25", "A", "Z", "X", "RecArr", "Pq%" }
 
 OneSlot == {
-    "print", "print-file", "lprint", "bare", "dim", "dim-shared", "if-block", "elseif", "while", "do-while",
-    "loop-until", "for-var", "for-step", "next-var", "case-is", "goto", "gosub", "on-error", "resume",
-    "return", "label", "input", "line-input", "read", "data", "open", "open-len", "open-num", "close", "get",
-    "input-file", "line-input-file", "kill", "environ", "def-seg", "exit", "byref-arg", "byref-fn-arg",
-    "type-member" }
+    "print", "print-file", "lprint", "bare", "dim", "dim-shared", "redim-bare", "static-decl", "shared-decl",
+    "erase", "print-semi", "print-comma", "print-spc", "let-only", "end-kw", "data-read2", "if-block",
+    "elseif", "while", "do-while", "loop-until", "for-var", "for-step", "next-var", "case-is", "goto",
+    "gosub", "on-error", "resume", "return", "label", "input", "line-input", "read", "data", "open",
+    "open-len", "open-num", "close", "get", "input-file", "line-input-file", "kill", "environ", "def-seg",
+    "exit", "byref-arg", "byref-fn-arg", "type-member" }
 
 TwoSlot == {
-    "assign", "let", "print2", "print-using", "call1", "call-kw", "dim-arr", "dim-as", "redim", "const",
-    "if-line", "for-bounds", "select", "case-range", "input2", "field", "lset", "name", "poke", "locate",
-    "color", "width", "view-print", "defint", "member-assign", "elem-assign", "elem-member-assign",
-    "elem-print", "elem-member-print", "two-subscripts", "swap-assign", "nested", "sub-decl",
-    "function-decl", "declare", "type-decl" }
+    "assign", "let", "print2", "print-using", "call1", "call-kw", "dim-arr", "dim-as", "redim", "redim-as",
+    "redim-shared", "dim-shared-arr", "dim-arr-as", "dim-two", "dim-to", "const-two", "print-tab",
+    "while-wend-var", "if-else-line", "on-goto", "mid-stmt", "swap", "const", "if-line", "for-bounds",
+    "select", "case-range", "input2", "field", "lset", "name", "poke", "locate", "color", "width",
+    "view-print", "defint", "member-assign", "elem-assign", "elem-member-assign", "elem-print",
+    "elem-member-print", "two-subscripts", "swap-assign", "nested", "sub-decl", "function-decl", "declare",
+    "type-decl" }
 
 VARIABLES t, a, b
 vars == <<t, a, b>>
